@@ -43,6 +43,55 @@ theorem TDVCS2LP_not_bilinear_BM10ex :
     Gep.Cx.smul_im, Gep.Cx.divR_re, Gep.Cx.divR_im, Gep.Cx.ofReal_re, Gep.Cx.ofReal_im]
   norm_num
 
+/-- the same for the TERM itself (the coefficient-level statement above would be compatible with a vanishing term:
+    at helicity 0 the term is 0 whatever the coefficient): with beam helicity 1 and every axial CFF zero,
+    TDVCS2LP of BM10ex is not zero  (statement and proof from the independent audit, notes/audit) -/
+theorem TDVCS2LP_not_bilinear_BM10ex_term :
+    ∃ (c : Consts) (m : CFFs) (pt : Pt), FS_BM10ex_TDVCS2LP c (zeroAx m) pt ≠ 0 := by
+  refine ⟨⟨1, 1, 1, 1⟩, { CFFs.zero with ReH := 1 },
+    { Pt.zero with Q2 := 4, xB := 1/2, t := -1, y := 1/2, eps2 := 1/4, in1polarization := 1 }, ?_⟩
+  have hC : BM10ex.CCALDVCSLP_im0_leff0_reff0 ⟨1, 1, 1, 1⟩ (zeroAx { CFFs.zero with ReH := 1 })
+      { Pt.zero with Q2 := 4, xB := 1/2, t := -1, y := 1/2, eps2 := 1/4, in1polarization := 1 } ≠ 0 := by
+    simp only [BM10ex.CCALDVCSLP_im0_leff0_reff0, bmk_sym, Pt.zero, CFFs.zero, Gep.Cx.mk_re, Gep.Cx.mk_im, Gep.Cx.add_re,
+      Gep.Cx.add_im, Gep.Cx.sub_re, Gep.Cx.sub_im, Gep.Cx.neg_re, Gep.Cx.neg_im, Gep.Cx.mul_re, Gep.Cx.mul_im,
+      Gep.Cx.smul_re, Gep.Cx.smul_im, Gep.Cx.divR_re, Gep.Cx.divR_im, Gep.Cx.ofReal_re, Gep.Cx.ofReal_im]
+    norm_num
+  have hs : ksqrt (1 + 1/4) ≠ 0 := by
+    unfold ksqrt; exact (Real.sqrt_pos.mpr (by norm_num)).ne'
+  simp only [FS_BM10ex_TDVCS2LP, BM10ex.TDVCS2LP, BM10ex.cDVCS0LP, BM10ex.cDVCS1LP, BM10ex.sDVCS1LP, BMK.PreFacDVCS]
+  generalize BM10ex.CCALDVCSLP_im0_leff0_reff0 _ _ _ = C at hC
+  generalize BM10ex.CCALDVCSLP_im0_leff1_reff0 _ _ _ = C1
+  generalize BM10ex.CCALDVCSLP_im1_leff1_reff0 _ _ _ = C2
+  simp only [Pt.zero, mul_zero, zero_mul, zero_div, neg_zero, add_zero]
+  have : (2 * (1:ℝ) * (1/2) * (2 - 1/2) / ksqrt (1 + 1/4)) ≠ 0 := by
+    apply div_ne_zero (by norm_num) hs
+  apply mul_ne_zero (by norm_num) (mul_ne_zero this hC)
+
+/-! ### BM10tw2 is BM10 with the second and third interference harmonics switched off — exactly -/
+
+theorem TINTunp_BM10_vs_tw2 (c : Consts) (m : CFFs) (pt : Pt) :
+    FS_BM10_TINTunp c m pt - FS_BM10tw2_TINTunp c m pt =
+      (-pt.in1charge) * BMK.PreFacINT c m pt *
+        (BM10.cINT2unp c m pt * kcos (2 * pt.phi) + BM10.cINT3unp c m pt * kcos (3 * pt.phi)
+          + BM10.sINT2unp c m pt * ksin (2 * pt.phi) + BM10.sINT3unp c m pt * ksin (3 * pt.phi)) := by
+  simp only [FS_BM10_TINTunp, FS_BM10tw2_TINTunp, BM10.TINTunp, BM10tw2.TINTunp, BM10tw2.cINT2unp, BM10tw2.cINT3unp,
+    BM10tw2.sINT2unp, BM10tw2.sINT3unp]
+  ring
+
+theorem TINTLP_BM10_vs_tw2 (c : Consts) (m : CFFs) (pt : Pt) :
+    FS_BM10_TINTLP c m pt - FS_BM10tw2_TINTLP c m pt =
+      (-pt.in1charge) * BMK.PreFacINT c m pt *
+        (BM10.cINT2LP c m pt * kcos (2 * pt.phi) + BM10.cINT3LP c m pt * kcos (3 * pt.phi)
+          + BM10.sINT2LP c m pt * ksin (2 * pt.phi) + BM10.sINT3LP c m pt * ksin (3 * pt.phi)) := by
+  simp only [FS_BM10_TINTLP, FS_BM10tw2_TINTLP, BM10.TINTLP, BM10tw2.TINTLP, BM10tw2.cINT2LP, BM10tw2.cINT3LP,
+    BM10tw2.sINT2LP, BM10tw2.sINT3LP]
+  ring
+
+/-- … and the two sets share the squared-DVCS and Bethe–Heitler terms -/
+theorem DVCS2_BH_BM10_eq_tw2 (c : Consts) (m : CFFs) (pt : Pt) :
+    FS_BM10tw2_TDVCS2unp c m pt = FS_BM10_TDVCS2unp c m pt ∧ FS_BM10tw2_TDVCS2LP c m pt = FS_BM10_TDVCS2LP c m pt ∧
+    FS_BM10tw2_TBH2unp c m pt = FS_BM10_TBH2unp c m pt := ⟨rfl, rfl, rfl⟩
+
 /-! ### squared-DVCS term, unpolarised target: exact relations between the sets -/
 
 /-- the twist-two 𝒞^DVCS_unp of BM10 is BMK's (66) -/
